@@ -5,6 +5,7 @@ import (
 	"encoding/json"
 	"errors"
 	"fmt"
+	"reflect"
 	"regexp"
 	"strings"
 	"time"
@@ -16,30 +17,30 @@ import (
 // S-cursor: the query pipeline scenario (DESIGN.md §5). Serves C20 C21 C22.
 
 type cursorQuerySpec struct {
-	Kind      int `json:"kind"`      // index into cursorQueries
-	Consumer  int `json:"consumer"`  // 0 prompt, 1 slow, 2 stalls forever after K rows, 3 closes after K rows, 4 never calls Next (abandons), 5 Close before first Next
-	K         int `json:"k"`         // rows before the consumer's special action
+	Kind      int `json:"kind"`     // index into cursorQueries
+	Consumer  int `json:"consumer"` // 0 prompt, 1 slow, 2 stalls forever after K rows, 3 closes after K rows, 4 never calls Next (abandons), 5 Close before first Next
+	K         int `json:"k"`        // rows before the consumer's special action
 	GateEvery int `json:"gate_every"`
-	Ctx       int `json:"ctx"`       // 0 background, 1 cancelled by the controller at some step, 2 deadline
+	Ctx       int `json:"ctx"` // 0 background, 1 cancelled by the controller at some step, 2 deadline
 	TimeoutMs int `json:"timeout_ms"`
 	SideClose int `json:"side_close"` // 0 none, 1 a second goroutine calls Close at some step
 	ExtraNext int `json:"extra_next"` // Next/Row/Err/Close calls after the terminal state
 }
 
 type cursorWorkload struct {
-	Files      [][]int             `json:"files"` // per file: rows per partition block
-	Compress   string              `json:"compression"`
-	QConc      int                 `json:"max_query_concurrency"`
-	EngState   int                 `json:"engine_state"` // 0 never started, 1 running, 2 stopped
-	Clients    [][]cursorQuerySpec `json:"clients"`
-	MetaBug    MetaBuggify         `json:"meta_buggify"`
-	RealMeta   bool                `json:"real_memory_metastore"`
-	LazyTomb   bool                `json:"lazy_tombstone"`
+	Files    [][]int             `json:"files"` // per file: rows per partition block
+	Compress string              `json:"compression"`
+	QConc    int                 `json:"max_query_concurrency"`
+	EngState int                 `json:"engine_state"` // 0 never started, 1 running, 2 stopped
+	Clients  [][]cursorQuerySpec `json:"clients"`
+	MetaBug  MetaBuggify         `json:"meta_buggify"`
+	RealMeta bool                `json:"real_memory_metastore"`
+	LazyTomb bool                `json:"lazy_tombstone"`
 	// ReorderFilters rewrites the files the way an external writer may lay them out: the block
 	// filter sections in reverse block order inside the region (legal for the format; the query's
 	// filter pass then needs one region read per block instead of one per file).
 	ReorderFilters bool `json:"reorder_filter_sections"`
-	FaultClass int                 `json:"fault_class"`
+	FaultClass     int  `json:"fault_class"`
 }
 
 type cursorQuery struct {
@@ -49,30 +50,32 @@ type cursorQuery struct {
 	Q        *bs.Query
 	Expected map[string]bool
 
-	ctx        context.Context
-	simctx     *SimCtx
-	cancel     context.CancelFunc
-	res        *bs.Results
-	queryErr   error
-	spawnLo    int
-	spawnHi    int
-	IDs        []string
-	NextFalse  bool // Next has returned false
-	nfStep     int
-	nfInvoke   int
-	CtxErrAtNF error // caller ctx error when the final Next was invoked
-	CtxErrAfter error // caller ctx error right after the final Next returned
-	ClosedByMe bool  // the consumer (or side closer) called Close before Next returned false
+	ctx           context.Context
+	simctx        *SimCtx
+	cancel        context.CancelFunc
+	res           *bs.Results
+	queryErr      error
+	spawnLo       int
+	spawnHi       int
+	IDs           []string
+	NextFalse     bool // Next has returned false
+	nfStep        int
+	nfInvoke      int
+	CtxErrAtNF    error // caller ctx error when the final Next was invoked
+	CtxErrAfter   error // caller ctx error right after the final Next returned
+	ClosedByMe    bool  // the consumer (or side closer) called Close before Next returned false
 	CtxErrAtClose error // caller ctx error when the first such Close was invoked
-	closeStep  int
-	Err        error
-	ErrSeen    bool
-	Stats      bs.QueryStats
-	Terminal   bool // Next returned false or Close returned: resources must be released
-	termStep   int
-	Checked    bool
-	Stalled    bool // consumer deliberately stopped consuming
-	Problems   []string
+	closeStep     int
+	Err           error
+	ErrSeen       bool
+	Stats         bs.QueryStats
+	Terminal      bool // Next returned false or Close returned: resources must be released
+	termStep      int
+	Checked       bool
+	Stalled       bool // consumer deliberately stopped consuming
+	Problems      []string
+	Unfaithful    []string         // C03: rows that differ from the JSON round trip of what was ingested
+	Rows          []map[string]any // every delivered row, re-examined at the end of the run
 }
 
 func cursorQueries() []*bs.Query {
@@ -146,19 +149,20 @@ func genCursorWorkload(w *Tape) *cursorWorkload {
 }
 
 type cursorState struct {
-	r       *Run
-	wl      *cursorWorkload
-	eng     *bs.BloomSearchEngine
-	disk    *SimDisk
-	simMeta *SimMeta
-	gmeta   *GatedMeta
-	meta    bs.MetaStore
-	rows    map[string]*SpecRow
-	pids    map[string]string
-	nvals   map[string]int
-	queries []*cursorQuery
-	fin     int
-	quit    chan struct{}
+	r        *Run
+	wl       *cursorWorkload
+	eng      *bs.BloomSearchEngine
+	disk     *SimDisk
+	simMeta  *SimMeta
+	gmeta    *GatedMeta
+	meta     bs.MetaStore
+	rows     map[string]*SpecRow
+	pids     map[string]string
+	nvals    map[string]int
+	want     map[string]map[string]any // _id -> JSON round trip of the ingested row
+	queries  []*cursorQuery
+	fin      int
+	quit     chan struct{}
 	maxGauge int
 	census   *Census
 }
@@ -194,6 +198,9 @@ func (st *cursorState) buildStore() {
 				raw, _ := json.Marshal(row)
 				sid := row["_id"].(string)
 				st.rows[sid] = BuildSpecRow(raw, SpecDefaultTokenizer)
+				var rt map[string]any
+				json.Unmarshal(raw, &rt)
+				st.want[sid] = rt
 				st.pids[sid] = row["p"].(string)
 				st.nvals[sid] = row["n"].(int)
 				rows = append(rows, row)
@@ -387,6 +394,14 @@ func (st *cursorState) consume(cq *cursorQuery) {
 			cq.Problems = append(cq.Problems, "Row() returned nil after Next returned true")
 		}
 		cq.IDs = append(cq.IDs, idOfRow(row))
+		if row != nil {
+			// C03 under concurrent scans that reuse pooled buffers, store faults included: the
+			// row equals what was ingested now, and still does when the run ends.
+			if want, ok := st.want[idOfRow(row)]; ok && !reflect.DeepEqual(want, row) && len(cq.Unfaithful) < 3 {
+				cq.Unfaithful = append(cq.Unfaithful, fmt.Sprintf("delivered %v, ingested %v", row, want))
+			}
+			cq.Rows = append(cq.Rows, row)
+		}
 		n++
 	}
 	cq.nfStep = r.Step
@@ -546,7 +561,7 @@ func (st *cursorState) onStep() {
 // RunCursor executes one S-cursor run.
 func RunCursor(r *Run, variant string) {
 	wl := genCursorWorkload(r.W)
-	st := &cursorState{r: r, wl: wl, rows: map[string]*SpecRow{}, pids: map[string]string{}, nvals: map[string]int{}, quit: make(chan struct{})}
+	st := &cursorState{r: r, wl: wl, rows: map[string]*SpecRow{}, pids: map[string]string{}, nvals: map[string]int{}, want: map[string]map[string]any{}, quit: make(chan struct{})}
 	r.Samples = append(r.Samples, wl)
 	st.disk = NewSimDisk(r)
 	st.disk.LazyTombstone = wl.LazyTomb
@@ -590,7 +605,7 @@ func RunCursor(r *Run, variant string) {
 		r.Faults.Off = true
 	default:
 		rate := []int{20, 60}[wl.FaultClass-2]
-		r.Faults = FaultPolicy{ErrPermille: map[string]int{"ds.open": rate, "ds.read": rate, "ms.iter": rate / 2, "ms.yield": rate / 2}, ShortPermille: rate,
+		r.Faults = FaultPolicy{ErrPermille: map[string]int{"ds.open": rate, "ds.read": rate, "ms.iter": rate / 2, "ms.yield": rate / 2}, ShortPermille: rate, CorruptPermille: []int{0, rate}[r.S.Draw(2)],
 			StallPermille: []int{0, 15}[r.S.Draw(2)], HonorCtx: r.S.Bool(), MaxFaults: 1 + r.S.Draw(4)}
 	}
 	if fine {
@@ -751,6 +766,18 @@ func (st *cursorState) evaluate() {
 		for _, p := range cq.Problems {
 			r.Violate("C20", "cursor-contract", "query %s: %s", cq.Tag, p)
 		}
+		for _, p := range cq.Unfaithful {
+			r.Violate("C03", "row-not-faithful-concurrent-scans", "query %s: %s", cq.Tag, p)
+		}
+		for _, row := range cq.Rows {
+			if want, ok := st.want[idOfRow(row)]; ok && !reflect.DeepEqual(want, row) && len(cq.Unfaithful) == 0 {
+				r.Violate("C03", "row-changed-after-delivery", "query %s: row %s was delivered intact but reads %v at the end of the run (ingested %v)", cq.Tag, idOfRow(row), row, want)
+				break
+			}
+		}
+		if len(cq.Rows) > 0 {
+			r.NonTriv["C03"] = true
+		}
 		if !cq.NextFalse {
 			continue
 		}
@@ -782,7 +809,11 @@ func (st *cursorState) evaluate() {
 		}
 		// Faults that fired on this query's calls.
 		var mine []*InjErr
+		corrupted := 0 // reads of this query that returned silently corrupted data: an error is allowed, not required
 		for _, c := range st.disk.CallsSnapshot() {
+			if c.Tag == cq.Tag && c.Corrupt {
+				corrupted++
+			}
 			if c.Tag == cq.Tag && c.Err != nil {
 				var ie *InjErr
 				if errors.As(c.Err, &ie) {
@@ -824,13 +855,13 @@ func (st *cursorState) evaluate() {
 						r.Violate("C20", "failure-not-reported", "query %s completed (no cancel, no Close) with Err() = %v, which does not include %v", cq.Tag, cq.Err, ie)
 					}
 				}
-				if len(mine) == 0 && !isMetaInj(cq.Err) {
+				if len(mine) == 0 && corrupted == 0 && !isMetaInj(cq.Err) {
 					r.Violate("C20", "error-without-failure", "query %s completed with Err() = %v although none of its store calls failed and it was neither cancelled nor closed", cq.Tag, cq.Err)
 				}
 			}
 			if cq.ClosedByMe && !cancelled && cq.CtxErrAtClose == nil {
 				// R5: after a deliberate Close, Err is nil or made of injected sentinels only.
-				if !errors.Is(cq.Err, ErrInjected) {
+				if !errors.Is(cq.Err, ErrInjected) && corrupted == 0 {
 					r.Violate("C20", "close-produced-error", "query %s was closed deliberately and Err() = %v is not one of the injected failures", cq.Tag, cq.Err)
 				}
 			}
